@@ -409,7 +409,7 @@ func ghostName(fun ast.Expr) (string, []ast.Expr) {
 var ghostBuiltins = map[string]bool{
 	"old": true, "implies": true, "iff": true, "ite": true, "is": true, "as": true, "errIs": true,
 	"fresh": true, "ncalls": true, "callarg": true, "callret": true, "firstret": true, "forall": true, "exists": true,
-	"pendingErr": true, "pendingFailed": true, "outCount": true, "outFirst": true, "outLast": true, "ctxDone": true, "allocated": true, "sameSlice": true, "sameFloat": true, "sameVal": true, "sameBase": true, "freshBase": true,
+	"pendingErr": true, "pendingFailed": true, "outCount": true, "outFirst": true, "outLast": true, "ctxDone": true, "allocated": true, "sameSlice": true, "sameFloat": true, "sameVal": true, "sameBase": true, "freshBase": true, "present": true,
 	"deferActive": true, "deferVal": true, "deferObj": true, "dynret": true, "mathInt": true, "fitsInt64": true, "fitsInt32": true,
 	"strLen": true, "boolToInt": true, "uninterp": true, "loopEntry": true, "isNaN": true, "isInf": true,
 	"toFloat": true, "exactCmpIF": true, "errIsCtx": true, "roundHalfAway": true, "truncF": true, "f2iInRange64": true, "f2iTrunc": true,
@@ -891,6 +891,13 @@ func (env *specEnv) ghost(name string, targs []ast.Expr, e *ast.CallExpr) SV {
 		return x.get(env.st, k)
 	case "sameFloat":
 		return app(SBool, "=", env.evalTerm(e.Args[0]), env.evalTerm(e.Args[1]))
+	case "present":
+		// an interface value that holds something: neither nil nor a typed nil pointer
+		a := env.evalTerm(e.Args[0])
+		if a.Sort != SAny {
+			return mkNot(mkEq(a, intLit(0)))
+		}
+		return mkAnd(mkNot(mkEq(a, T(SAny, "ANil"))), mkImplies(app(SBool, "(_ is APtr)", a), mkNot(mkEq(app(SInt, "aptr", a), intLit(0)))))
 	case "sameBase":
 		// the two slices share their backing array (or are both nil/empty-based)
 		a, b := env.evalTerm(e.Args[0]), env.evalTerm(e.Args[1])
